@@ -28,6 +28,9 @@ Decides:
  E offered anyway  take_argument pushes its name hint on every way out of the "name is not on the line" arm, also when the value then comes from the environment.
  P value mode      "only values make sense" is concluded from hints of the active level only (only_value is asked about elements of the depth-filtered
                    iterator, never about all collected hints).
+ H group push      push_with_group hands every stashed hint back whether or not the group has a (non-blank) title; E prefix table: the text in front of a
+                   value completed inside `-o=..` / `--opt=..` has one dash for a short and two for a long name; E matcher: short names match exactly,
+                   long / command names by prefix OF THE NAME.
 Does not decide: the candidate set for a given prefix (depth / prefix filtering is value-level)."""
 import re
 from core import *
@@ -53,6 +56,8 @@ def run(ctx):
         ctx.guard(short_exact, ctx, cfg, fs)
         ctx.guard(last_index_tests, ctx, cfg, fs)
         ctx.guard(hide, ctx, cfg, fs)
+        ctx.guard(group_push, ctx, cfg, fs)
+        ctx.guard(prefix_table, ctx, cfg, fs)
         ctx.guard(comp_rebuild, ctx, cfg, fs)
         ctx.guard(pos_only_source, ctx, cfg, fs)
         ctx.guard(value_mode_scoped, ctx, cfg, fs)
@@ -424,6 +429,52 @@ PRIMS = {
     r'^params::parse_pos_word$': ('parse_pos_word', [r'push_metavar$', r'push_pos_sep$', r'check_no_pos_ahead$']),
     r'^<params::ParseCommand<T> as Parser<T>>::eval$': ('ParseCommand', [r'push_command$']),
 }
+
+def prefix_table(ctx, cfg, fs):
+    """a value completed inside `-o=val` / `--opt=val` replaces the WHOLE word, so the candidate repeats the part in front of the value:
+    one dash for a short name, two for a long one (the result must be something the parser accepts for the same item).  Table over
+    every place that renders a complete_gen::Prefix: the text written in the Short arm starts with `-{}=`, in the Long arm with `--{}=`."""
+    want = {'Short': r'^-\{\}=', 'Long': r'^--\{\}='}
+    seen = {'Short': 0, 'Long': 0}; bad = []
+    for path, b in sorted(fs.bodies.items()):
+        sws = [s_ for s_ in switches(b) if s_.kind == 'enum' and (s_.enum or '').endswith('complete_gen::Prefix')]
+        if not sws: continue
+        sites = fmt_sites(b)
+        for sw in sws:
+            for v, rx in want.items():
+                t = sw.target(v)
+                if t is None: continue
+                others = [x for o_, x in sw.edges.items() if x != t]
+                region = reachable_edges(b, t, avoid=others + [sw.b])
+                for o_ in others:
+                    region -= reachable_edges(b, o_, avoid=[sw.b])
+                for s_ in sites:
+                    if s_.bb in region:
+                        seen[v] += 1
+                        if not re.search(rx, s_.text()):
+                            bad.append('%s arm writes %r at %s' % (v, s_.text(), s_.where()))
+    ctx.ob('E.hints', 'Prefix:dashes-match-the-kind-of-name', all(seen.values()) and not bad,
+           'renderings of Prefix: Short -> `-{}=..` (%d site(s)), Long -> `--{}=..` (%d site(s)): %s' % (seen['Short'], seen['Long'], bad or 'ok'), cfg=cfg)
+
+def group_push(ctx, cfg, fs):
+    """State::push_with_group hands the hints collected inside a group_help wrapper back to the completion state.  The title only LABELS
+    them: whether there is a title (the first line of the group's Doc may well be blank) must not decide whether a hint goes back.
+    Every push onto `comps` in push_with_group is free of any test of the `group` parameter; only set_group may depend on it."""
+    cands = fs.find(r'State>::push_with_group$', required=False)
+    if not cands:
+        return
+    b = ctx.look(cands[0])
+    pushes = [c for x in [b] for c in x.calls() if c.is_(r'Vec::<.*>::(push|extend|append)$') and 'Comp' in c.full]
+    bad = []
+    for c in pushes:
+        for (a_, s_) in b.transitive_control_deps(c.bb):
+            if b.term(a_)['k'] != 'switch': continue
+            sw = Switch(b, a_)
+            rs = provenance(b, sw.place, sw.discr_site[0], sw.discr_site[1]) if sw.kind == 'enum' else (sw.roots or [])
+            if any((r.kind == 'param' and r.what == 'group') or (r.kind == 'call' and any(q.kind == 'param' and q.what == 'group' for a in r.call.args for q in provenance(b, a, r.call.bb, 'term'))) for r in rs):
+                bad.append('the push at %s depends on a test of `group` (%s)' % (b.where(c.bb), b.where(a_)))
+    ctx.ob('H.hide', 'push_with_group:hints-go-back-with-or-without-title', bool(pushes) and not bad,
+           'push_with_group pushes every stashed hint (%d push site(s)); the title decides only the label: %s' % (len(pushes), sorted(set(bad)) or 'ok'), where=b.where(), cfg=cfg)
 
 def hints(ctx, cfg, fs):
     for rx, (nm, pats) in PRIMS.items():
